@@ -113,6 +113,13 @@ def one_case(run, seed, idx, unitcell):
             sym = "R"                                  # guaranteed once per run
         elif r.random() < 0.15:
             sym = "PABCIFR"[int(r.integers(7))]        # any centring on any cell is still a lattice
+    # large cells (protein / zeolite sized): reciprocal vectors of 0.01-0.05 1/A; nothing in the statement bounds the
+    # cell size, and absolute thresholds on products of g-vectors would only show here
+    big = 1.0
+    if kind != "pseudo" and (idx % 6 == 4 if idx >= nstrat else idx == 3):
+        big = float(r.choice([8.0, 15.0, 25.0]))
+        cell = [c * big for c in cell[:3]] + list(cell[3:])
+        run.count("large_cells")
     run.count("centring:" + sym)
     B = xtal.Bmat(cell)
     G = xtal.metric(cell)
@@ -129,6 +136,7 @@ def one_case(run, seed, idx, unitcell):
     # numbering for pseudo-symmetric cells); every orientation request afterwards must still be answered for the
     # rings as they are now
     tols = [1e-4, 2e-2, 1e-4, 5e-3] if (idx % 3 == 0 if idx < nstrat else r.random() < 0.34) else [1e-4]
+    tols = [t_ / big for t_ in tols]                   # ring tolerances are absolute in d*: keep them relative to 1/a
     ctx = dict(index=idx, cell=cell, sym=sym, kind=kind, rot=rotk)
     for hstep, tol in enumerate(tols):
         try:
